@@ -54,6 +54,7 @@ class MarkerTable:
         raises TornMarker -- evidence that a native op sliced through a symbolic part."""
         out: List[Any] = []
         i = 0
+        text = str.__str__(text)      # proxies that subclass str forbid len()/indexing
         n = len(text)
         while i < n:
             ch = text[i]
